@@ -11,11 +11,16 @@ Oracle : invariants over the listener's block events, the run-log states and the
   B3  block end events occur only while an `End block` / `End blocks` instruction executes; one `End block` ends
       exactly one block when a block is active (none otherwise) and it is the innermost one; after `End blocks`
       no block is active;
-  B4  after a block's end event the interpreter begins no further line that lies lexically inside that block
-      (signature part `interrupt`: the line belongs to a Watch/Alarm declared in the block, `body`: to the block's
-      own body) until the block starts again; lines whose visit began before the end event may finish;
+  B4  after a block's end event the interpreter begins no further instruction line that lies lexically inside that
+      block (signature part `interrupt`: the line belongs to a Watch/Alarm declared in the block, `body`: to the
+      block's own body) until the block starts again; lines whose visit began before the end event may finish (a Watch
+      line being visited may still register); a Watch/Alarm that was pending when the block ended (registered during
+      this invocation of the block) is not registered again afterwards;
   B5  the instruction after a block (next instruction sibling) starts / produces its effect only after that block's
       end event.
+Per case only the FIRST violation in event order is reported.  Violations that involve a Watch/Alarm declared in a body
+that runs repeatedly (Alarm / Macro body) share one signature (`interrupt-in-repeated-body:block-bookkeeping`); the
+judged part of such a case also ends at the first C02 violation of that class (see c02.py).
 """
 from __future__ import annotations
 
@@ -41,7 +46,7 @@ ASSUMPTIONS = [
     "methods whose run hits a method error are judged up to the tick before the error only",
 ]
 TIERS = {"quick": {"examples": 3200, "ticks": 110, "budget_s": 150, "depth": 3, "max_top": 7},
-         "thorough": {"examples": 80000, "ticks": 220, "budget_s": 1500, "depth": 4, "max_top": 10}}
+         "thorough": {"examples": 80000, "ticks": 220, "budget_s": 840, "depth": 4, "max_top": 10}}
 
 
 def gen_cfg(depth: int, max_top: int) -> G.GenCfg:
@@ -120,6 +125,8 @@ def run_shard(col, cfg):
     def body(case):
         vs, info, tr = run_case(case)
         nontrivial, classes = _classes(case, info, tr)
+        if case.get("excluded_nested"):
+            classes = classes + ["excluded_known:interrupt-in-repeated-body"]
         col.record(case, nontrivial, classes=classes, violations=vs,
                    sample={"method": G.text_of(tr.prog.lines), "traj": case["traj"], "init": case["init"], "ticks": case["ticks"]})
     hyp_run(O.cases(gcfg, int(cfg["ticks"])), body, max(1, int(cfg["examples"]) // col.nshards), shard_seed(col.seed, col.shard), col)
